@@ -27,7 +27,7 @@ from . import smt
 
 ROOT = os.path.dirname(os.path.dirname(os.path.abspath(__file__)))
 REPO = os.environ.get("VERIF_REPO", "/repo")
-LEDGER = os.path.join(ROOT, "obligations.baseline.json")
+LEDGER_DIR = os.path.join(ROOT, "ledger")  # ledger/<id>.json: obligation names discharged on the reference tree
 KNOWN = os.path.join(ROOT, "known_findings.txt")
 OUT = os.environ.get("VERIF_OUT") or ROOT  # scratch runs (self-test on a mutated copy) write elsewhere
 
@@ -98,11 +98,12 @@ def load_known(prop: str) -> list[dict[str, Any]]:
     return out
 
 
-def load_ledger() -> dict[str, list[str]]:
-    if os.path.exists(LEDGER):
-        with open(LEDGER) as f:
-            return json.load(f)
-    return {}
+def load_ledger(prop: str) -> list[str] | None:
+    path = os.path.join(LEDGER_DIR, f"{prop}.json")
+    if os.path.exists(path):
+        with open(path) as f:
+            return json.load(f)["obligations"]
+    return None
 
 
 def _jsonable(x: Any) -> Any:
@@ -216,7 +217,7 @@ class Check:
     def finish(self) -> int:
         """Classify, write evidence, print lines, return exit code."""
         known = load_known(self.prop)
-        ledger = None if getattr(self, "ignore_ledger", False) else load_ledger().get(self.prop)
+        ledger = None if getattr(self, "ignore_ledger", False) else load_ledger(self.prop)
         violations: list[tuple[Obligation, str, bool]] = []  # (ob, replay path, has_input)
         known_hits: list[tuple[Obligation, dict[str, Any]]] = []
         undecided: list[Obligation] = []
@@ -422,8 +423,14 @@ def _match_known(known: list[dict[str, Any]], ob: Obligation) -> dict[str, Any] 
     return None
 
 
-def update_ledger(prop: str, names: list[str]) -> None:
-    led = load_ledger()
-    led[prop] = sorted(names)
-    with open(LEDGER, "w") as f:
-        json.dump(led, f, indent=0, sort_keys=True)
+def update_ledger(prop: str, names: list[str], tier: str) -> None:
+    os.makedirs(LEDGER_DIR, exist_ok=True)
+    path = os.path.join(LEDGER_DIR, f"{prop}.json")
+    old = set()
+    if os.path.exists(path) and tier == "thorough":
+        old = set(json.load(open(path))["obligations"])
+    # the ledger holds the obligations of the quick tier (a subset of thorough); a thorough run only adds names
+    if tier == "thorough":
+        return
+    with open(path, "w") as f:
+        json.dump({"property": prop, "obligations": sorted(names)}, f, indent=0)
